@@ -354,6 +354,28 @@ def eval_cases(coq, pairs):
         shutil.rmtree(td, ignore_errors=True)
 
 
+def coq_of(pl, rec):
+    """the Coq side a case belongs to: plugins may declare further typed suites (SUITES = {name: COQ-like dict});
+    a case names its suite in rec['suite'], default is the plugin's COQ"""
+    s = (rec or {}).get("suite")
+    return pl.SUITES[s] if s else pl.COQ
+
+
+def eval_grouped(pl, recs, couts=None):
+    """eval_cases per suite; index sets refer to positions in recs"""
+    groups = {}
+    for k, r in enumerate(recs):
+        groups.setdefault(r.get("suite"), []).append(k)
+    cb, db, ic = set(), set(), set()
+    for s, ks in groups.items():
+        coq = pl.SUITES[s] if s else pl.COQ
+        a, b, c = eval_cases(coq, [(recs[k]["cin"], couts[k] if couts is not None else recs[k]["cout"]) for k in ks])
+        cb |= {ks[i] for i in a}
+        db |= {ks[i] for i in b}
+        ic |= {ks[i] for i in c}
+    return cb, db, ic
+
+
 def eval_model_output(coq, cin):
     """model output for one input as raw Coq text (for replay files only)"""
     if not coq.get("model"):
@@ -437,7 +459,7 @@ def run_check(plugin_mod, tier, seed, replay=None):
     incl = set()
     if ob["ok"] and good:
         try:
-            cb, db, ic = eval_cases(pl.COQ, [(r["cin"], r["cout"]) for r in good])
+            cb, db, ic = eval_grouped(pl, good)
             corr_bad = {good[i]["idx"] for i in cb}
             dec_bad = {good[i]["idx"] for i in db}
             incl = {good[i]["idx"] for i in ic}
@@ -460,7 +482,8 @@ def run_check(plugin_mod, tier, seed, replay=None):
     def report_violation(kind, obligation, i, note="", nofail=False):
         nonlocal exit_code
         h = humans[i] if i is not None else None
-        path = write_replay(prop, kind, obligation, seed, tier, h, byidx.get(i) if i is not None else None, pl.COQ, note)
+        path = write_replay(prop, kind, obligation, seed, tier, h, byidx.get(i) if i is not None else None,
+                            coq_of(pl, byidx.get(i) if i is not None else None), note)
         line = "VIOLATION property=%s replay=%s" % (prop, path)
         if nofail:
             line += " no-failing-input-found"
@@ -471,7 +494,7 @@ def run_check(plugin_mod, tier, seed, replay=None):
     if new_fail:
         i = min(new_fail, key=lambda k: size_of(humans[k]))
         note = "implementation hangs (timeout)" if byidx[i].get("hang") else \
-            "implementation output fails the decider %s (%d failing cases in this run)" % (pl.COQ["decide"], len(new_fail))
+            "implementation output fails the decider %s (%d failing cases in this run)" % (coq_of(pl, byidx[i])["decide"], len(new_fail))
         report_violation("failing-input", None, i, note)
     else:
         broken = []
@@ -485,7 +508,7 @@ def run_check(plugin_mod, tier, seed, replay=None):
         tie_bad = sorted(i for i in corr_bad if i in incl)
         if tie_bad:
             i = min(tie_bad, key=lambda k: size_of(humans[k]))
-            broken.append(("corr:%s/%s" % (prop, pl.COQ["corr"]), i,
+            broken.append(("corr:%s/%s" % (prop, coq_of(pl, byidx[i])["corr"]), i,
                            "model and implementation disagree on %d cases; decider holds on all of them" % len(tie_bad)))
         if broken:
             # search for a failing input with a larger budget before giving up
@@ -497,7 +520,7 @@ def run_check(plugin_mod, tier, seed, replay=None):
                     sgood = [r for r in srecs if not r.get("hang") and not r.get("harness_error") and not r.get("skip")]
                     shang = [r for r in srecs if r.get("hang")]
                     try:
-                        _, sdb, _ = eval_cases(pl.COQ, [(r["cin"], r["cout"]) for r in sgood])
+                        _, sdb, _ = eval_grouped(pl, sgood)
                     except RuntimeError:
                         sdb = set()
                     cand = [sgood[k] for k in sdb]
@@ -529,13 +552,13 @@ def run_check(plugin_mod, tier, seed, replay=None):
         cans = []
         for r in good[::step]:
             for bad in pl.canary(humans[r["idx"]], r) or []:
-                cans.append((r["cin"], bad))
+                cans.append((r, bad))
         if cans:
             try:
-                _, cdb, _ = eval_cases(pl.COQ, cans)
+                _, cdb, _ = eval_grouped(pl, [c[0] for c in cans], [c[1] for c in cans])
                 canary_total = len(cans)
                 canary_rejected = len(cdb)
-                canary_accepted = [cans[i] for i in range(len(cans)) if i not in cdb][:5]
+                canary_accepted = [(cans[i][0]["cin"], cans[i][1]) for i in range(len(cans)) if i not in cdb][:5]
             except RuntimeError as e:
                 canary_accepted = [("coq error", str(e)[-300:])]
 
@@ -592,13 +615,15 @@ def run_check(plugin_mod, tier, seed, replay=None):
     if not replay:
         os.makedirs(os.path.join(VERIF, "evidence"), exist_ok=True)
         json.dump(ev, open(os.path.join(VERIF, "evidence", prop + ".json"), "w"), indent=1, default=str)
+    if hasattr(pl, "cleanup"):
+        pl.cleanup()
     for ln in lines:
         print(ln)
     if replay:
         for r in recs:
             print("input      :", json.dumps(humans[r["idx"]], default=str))
             print("impl output:", json.dumps(r.get("out"), default=str))
-            print("model      :", eval_model_output(pl.COQ, r["cin"]) if r.get("cin") else None)
+            print("model      :", eval_model_output(coq_of(pl, r), r["cin"]) if r.get("cin") else None)
             print("agrees=%s decider=%s" % (r["idx"] not in corr_bad, r["idx"] not in dec_bad))
     print("%s %s: obligations %d/%d, cases %d (nontrivial distinct %d), disagreements %d, decider failures %d, "
           "known %d, %.1fs -> %s" % (prop, tier, ob["discharged"], ob["obligations"], len(recs), len(nontriv),
